@@ -1,5 +1,5 @@
 (* C12 - Python-side model of solvor/dijkstra.py: dijkstra_edges() (backend="python").  Definitions only.
-   With a target it calls dijkstra() (modelled in SV.C11.BestFirst); without a target it runs its own
+   With a target it calls dijkstra(..., max_iter=max(1_000_000, n_nodes + len(edges) + 1)) (modelled in SV.C11.BestFirst); without a target it runs its own
    "minimal Dijkstra" whose heap holds (distance, node) tuples: tuple order is total on distinct tuples and
    equal tuples are indistinguishable, so the heap is a list kept sorted by (d, u).  dist dict -> association
    list (only get / set, reported as a dict: compared as a node-indexed vector).  Weights f64 -> Z. *)
@@ -62,7 +62,7 @@ Definition dijkstra_edges (n : nat) (edges : wgraph) (source : nat) (target : op
   match target with
   | None => option_map RsDij.Dists (all_dists n edges source)
   | Some t =>
-      match dijkstra (adj_of n edges) source [t] 1000000 None with
+      match dijkstra (adj_of n edges) source [t] (Z.max 1000000 (Z.of_nat (n + length edges + 1))) None with
       | None => None
       | Some r =>
           match r_status r, r_path r, r_obj r with
